@@ -14,6 +14,8 @@ func checkC05(r *Run) {
 	ruleA12Copy(r, p)
 	ruleA12Reset(r, p, "newEvent", "Event")
 	ruleA12Reset(r, p, "Arr", "Array")
+	ruleA13(r, p, map[string]bool{"": true}, "ab") // a double put makes two loggers' events one object (C06's rule)
+	ruleNewEventCarriesLogger(r, p)
 	ruleHlogIsolation(r, p) // hlog/hlog.go and ctx.go are anchors of C05 too: per-request loggers are derived per request
 	r.Floor("A11", 85)
 	r.Floor("A12", 15)
